@@ -99,6 +99,13 @@ def jobs_for(tier, rnd):
                     parts = (decls + [body, 'X = "a" | "ba"']) if where == 'before' else ([body, 'X = "a" | "ba"'] + decls)
                     jobs.append((gid, '\n'.join(parts) + '\n', TXM, {'ign': 'multi', 'where': where, 'klass': klass, 'role': 'ignore-multi'}))
                     gid += 1
+    # a literal that can match nothing (zero-width regex match) still ends a token: ignorable text after it is skipped.
+    # Visible where nothing has cleaned the position before: every rule as entry point, and after a Backtrack.
+    for d in ['start = Num*\nNum = /-?/ >> /[ab]+/\nignore /[ ]+/\n', 'Nums = (/-?/ >> /[ab]+/)*\nstart = Nums\nOne = /-?/ >> "a"\nignore /[ ]+/\n',
+              'start = "a" >> Backtrack(1) >> /b?/ >> "a"\nignore /[ ]+/\n', 'class Start {\n  m: /-?/\n  w: /[ab]+/\n}\nW = /-?/ >> "b"\nignore Sp = /[ ]+/\n']:
+        jobs.append((gid, d, G.texts('ab- ', 4, extra=(' a', ' -a', '- a', ' - a b', 'a  b', '  b')), {'ign': 'zero-width', 'where': 'after', 'klass': 'class' in d,
+                     'role': 'ignore-zero-width', 'entries': 'all', 'positions': [0, 1]}))
+        gid += 1
     return jobs, pairs
 
 
